@@ -32,8 +32,7 @@ def run(ctx):
     binp = vlib.build_bin("pageops")
     d = vlib.scratch_dir()
     try:
-        runs = [("Doc35_quick.cfg", None, None, "bfs"), ("Doc35_std.cfg", None, None, "bfs"),
-                ("Doc35_xmpkw.cfg", None, None, "bfs")]
+        runs = [("Doc35_quick.cfg", None, None, "bfs")]
         if not ctx.quick:
             runs.append(("Doc35_sim.cfg", "num=%d" % (12000 // po.NPROC), 14, "sim"))
         tot, nontriv, mism, ncases = {}, set(), [], 0
@@ -62,23 +61,24 @@ def run(ctx):
                     for kk, vv in v.items():
                         dd[kk] = dd.get(kk, 0) + vv
             nontriv |= {cfg + ":" + x for x in nt}
-            if cfg == "Doc35_std.cfg":   # standard Info entries used as properties: own key space
-                for m in mm:
+            for m in mm:   # own key spaces: standard Info entries used as property names; keywords in the XMP metadata only
+                if m["case"].get("std"):
                     m["key"] = "std:" + m["key"]
-            for m in mm:                  # document whose keywords live in the catalog XMP metadata only: own key space
-                if m["case"]["base"] == "xmpkw":
+                elif m["case"]["base"] == "xmpkw":
                     m["key"] = "xmpkw:" + m["key"]
             mism += mm
         keys = po.report_by_key(ctx, mism, fmt)
         ev.cov(evaluations=tot.get("steps_checked", 0), distinct_nontrivial=len(nontriv), traces_validated_against_impl=ncases,
-               rule="a case is one history of Doc35.tla on a base document (without / with an Info dictionary); initial documents are emitted byte by byte from Doc35!BaseDoc: bare, "
-                    "info (Info dictionary, nothing listed), rich (keywords in Info dictionary AND catalog XMP metadata, properties, layout, mode, viewer "
-                    "preferences and an attachment already present), xmpkw (keywords in the XMP metadata only); exhaustive part (Doc35_quick.cfg, "
-                    "Doc35_std.cfg: <= 2 property edits with Subject/Author as names, Doc35_xmpkw.cfg: <= 2 keyword/property edits): all histories of "
-                    "<= 2 edits over the 53 actions of all families (1 step on the info document), 3 edits within the keyword / property / attachment family on the rich document, and all histories of 3 edits within one family; thorough adds -simulate "
-                    "histories of 1-10 random edits over the larger alphabets. Each distinct (prefix, step) is executed once and all six listings "
-                    "are compared; evaluations = steps compared; non-trivial = distinct (history prefix, step) pairs that changed the listing or "
-                    "extracted attachments, and matched",
+               rule="a case is one history of Doc35.tla on an initial document emitted byte by byte from Doc35!BaseDoc: bare, info (Info dictionary, "
+                    "nothing listed), rich (equal keywords in Info dictionary AND catalog XMP metadata, properties, layout, mode, viewer preferences and an "
+                    "attachment already present), xmpkw (keywords in the XMP only), kwdiff (different, overlapping keyword sets in Info dictionary and "
+                    "XMP), vpfull (a value for ten viewer preferences incl. NonFullScreenPageMode UseOC and the printer preferences). Exhaustive part = the "
+                    "plans Doc35!QuickPlans: all histories of <= 2 edits over the 53 actions of all families on bare and rich (1 step on info), a third "
+                    "edit within the keyword / property family on rich, <= 2 keyword/property edits on xmpkw and kwdiff, <= 2 property edits with "
+                    "Subject/Author as names, and on bare and vpfull EVERY value of EVERY viewer preference set alone through both routes (struct and "
+                    "JSON) followed by one of six further viewer-preference edits; thorough adds -simulate histories of 1-10 random edits over the larger "
+                    "alphabets on all six documents. Each distinct (prefix, step) is executed once and all six listings are compared; evaluations = steps "
+                    "compared; non-trivial = distinct (history prefix, step) pairs that changed the listing or extracted attachments, and matched",
                exhaustive=bool(ctx.quick and tot.get("skipped_after_violation", 0) == 0),
                histories=ncases, api_calls=tot.get("api_calls", 0), refusals_checked=tot.get("refusals", 0),
                histories_cut_short_by_a_violation=tot.get("skipped_after_violation", 0), ops=tot.get("ops", {}), mismatch_keys=keys)
